@@ -318,6 +318,9 @@ func runProperty(rc runConfig, prop *Property) int {
 			real := 0
 			for i := range res.Obligations {
 				o := &res.Obligations[i]
+				if strings.Contains(o.Key, "zzVerifPosctl") {
+					o.Control = true
+				}
 				if o.Control {
 					if o.Verdict != "holds" {
 						cr.CtlFired[rid]++
